@@ -15,7 +15,8 @@
 (*   knots    "ok" | "unsorted" | "toofew" | "few"  toofew: < order+2 knots; few: order+2 .. 2*order+1 *)
 (*   nsmooth  "one" | "ndim" | "other"                                     *)
 (*   npen     "one" | "ndim" | "other"                                     *)
-(*   penorder "ok" | "above"                        penalty order order+1 .. order+3 *)
+(*   penorder "ok" | "above" | "huge"               penalty order order+1 .. order+3; 2^32-1 *)
+(*   order    "ok" | "huge31" | "huge32" | "wrap"   spline order 2^31-1, 2^32-1, 2^31+3 (2*order+2 wraps to 0, 0, 8 in 32 bits) *)
 (*   monodim  "none" | "valid" | "ndim" | "huge"                           *)
 (***************************************************************************)
 EXTENDS Integers, Sequences, FiniteSets, TLC, Json
@@ -23,10 +24,10 @@ EXTENDS Integers, Sequences, FiniteSets, TLC, Json
 Classes == [weights |-> {"ok", "short", "long", "empty"}, ncoord |-> {"ok", "less", "more"}, coordlen |-> {"ok", "short"},
             index |-> {"ok", "atrange"}, norder |-> {"ok", "less", "more"}, nknotv |-> {"ok", "less", "more"},
             knots |-> {"ok", "unsorted", "toofew", "few"}, nsmooth |-> {"one", "ndim", "other"}, npen |-> {"one", "ndim", "other"},
-            penorder |-> {"ok", "above"}, monodim |-> {"none", "valid", "ndim", "huge"}]
+            penorder |-> {"ok", "above", "huge"}, monodim |-> {"none", "valid", "ndim", "huge"}, order |-> {"ok", "huge31", "huge32", "wrap"}]
 Args == DOMAIN Classes
 Good == [weights |-> "ok", ncoord |-> "ok", coordlen |-> "ok", index |-> "ok", norder |-> "ok", nknotv |-> "ok", knots |-> "ok",
-         nsmooth |-> "one", npen |-> "one", penorder |-> "ok", monodim |-> "none"]
+         nsmooth |-> "one", npen |-> "one", penorder |-> "ok", monodim |-> "none", order |-> "ok"]
 IsGood(a, v) == v \in (CASE a = "nsmooth" -> {"one", "ndim"} [] a = "npen" -> {"one", "ndim"} [] a = "monodim" -> {"none", "valid"} [] OTHER -> {"ok"})
 BadArgs(c) == {a \in Args : ~IsGood(a, c[a])}
 
